@@ -191,6 +191,9 @@ func directSrc(ci CallInfo) (bool, string) {
 			return true, "io." + f
 		}
 	}
+	if isFunc(ci.Static, "encoding/binary", "Read") {
+		return true, "binary.Read"
+	}
 	if isIfaceMethod(ci, "io", "Read") || isIfaceMethod(ci, "io", "ReadByte") {
 		return true, ci.FullName
 	}
